@@ -84,6 +84,10 @@ func (x *Exec) verify() {
 	var paramObjs []*Object
 	for _, p := range fn.Params {
 		v := x.freshVal("p."+p.Name(), p.Type())
+		if sv, ok := v.(SliceVal); ok {
+			sv.Cat = []StrVal{{Arr: o.Select(entry.H, sv.Reg), Off: sv.Off, Len: sv.Len}}
+			v = sv
+		}
 		x.constrainParam(entry, v)
 		if pv, ok := v.(PtrVal); ok && pv.Obj != nil {
 			paramObjs = append(paramObjs, pv.Obj)
@@ -177,16 +181,28 @@ func (x *Exec) verify() {
 		}
 		for i, c := range fc.Ensures {
 			x.curPos = fmt.Sprintf("%s:%d", x.contractFile(), c.Line)
+			x.catGoal = true
 			goal := x.evalClause(penv, c)
-			for ci, cs := range cases {
-				label := fmt.Sprint(i)
-				if len(cases) > 1 {
-					label = fmt.Sprintf("%d.case%d", i, ci)
-				}
-				ob := x.oblige("ensures", label, c.Tags, c.Text, o.And(r.St.Guard, cs), goal)
-				ob.Clause = c
-				if len(cases) > 1 {
-					ob.Case = cs
+			x.catGoal = false
+			// a conjunction is proved conjunct by conjunct (smaller queries)
+			parts := []*Term{goal}
+			if goal.Op == "and" && len(goal.Args) <= 400 {
+				parts = goal.Args
+			}
+			for pi, part := range parts {
+				for ci, cs := range cases {
+					label := fmt.Sprint(i)
+					if len(parts) > 1 {
+						label = fmt.Sprintf("%d.part%d", i, pi)
+					}
+					if len(cases) > 1 {
+						label += fmt.Sprintf(".case%d", ci)
+					}
+					ob := x.oblige("ensures", label, c.Tags, c.Text, o.And(r.St.Guard, cs), part)
+					ob.Clause = c
+					if len(cases) > 1 {
+						ob.Case = cs
+					}
 				}
 			}
 		}
